@@ -1,5 +1,6 @@
 import DimodProofs.Pack
 import DimodProofs.Vectors
+import DimodProofs.CooText
 
 /-! # C11 — serializable / JSON / pickle / copy round trips
 
@@ -144,6 +145,103 @@ theorem fallback_sort_keeps_triples (q : QVec) (h1 : q.rows.length = q.cols.leng
 
 /-- `cooLoad` is those sums -/
 theorem cooLoad_eq (t : List (Nat × Nat × Int)) : cooLoad t = (linSum t, quadSum t) := rfl
+
+/-! ## COO at text level (`DimodModel/CooText.lean`: `%d` / `%f` as printed characters, both regular expressions of
+    `coo.py` as scanners, `int()` / `float()` as decimal parsers, `split('\n')` / `'\n'.join`) -/
+
+section CooTextLevel
+open CooText
+
+/-- `int('%d' % n) = n` -/
+theorem coo_int_print_parse (n : Nat) : parseNat (natDigits n) = n := parseNat_natDigits n
+
+/-- `float('%f' % x)` is `x` rounded (half-even on the exact value) to six decimals — the printed precision -/
+theorem coo_float_print_parse (x : Rat) : parseDec (printF x) = some (mkRat (round6 x) 1000000) := parseDec_printF x
+
+/-- a written line `'%d %d %f' % (u, v, b)` is matched by `_LINE_REGEX` with exactly the three printed fields as groups,
+    and is not taken for a vartype header -/
+theorem coo_line_regex_on_written_line (t : Nat × Nat × Rat) :
+    matchTriple (printLine t) = some (natDigits t.1, natDigits t.2.1, printF t.2.2) ∧ matchHeader (printLine t) = none :=
+  ⟨matchTriple_printLine t, matchHeader_printLine t⟩
+
+/-- the header line `# vartype=NAME` is matched by `_VARTYPE_HEADER_REGEX` with group `NAME`, `Vartype[NAME]` is the vartype,
+    and the line is not taken for a triple -/
+theorem coo_header_regex_on_written_header (vt : VT) :
+    matchHeader (headerLine vt) = some (vtName vt) ∧ vtOfName (vtName vt) = some vt ∧ matchTriple (headerLine vt) = none :=
+  ⟨header_match vt, vtOfName_vtName vt, header_noTriple vt⟩
+
+/-- `s.split('\n')` undoes `'\n'.join` on the written lines -/
+theorem coo_split_join (hdr : Bool) (vt : VT) (labels : List Nat) (lin : Nat → Rat) (quad : Nat → Nat → Option Rat)
+    (hne : dumpLines hdr vt labels lin quad ≠ []) :
+    splitNl (dumps hdr vt labels lin quad) = dumpLines hdr vt labels lin quad := by
+  have hno : ∀ x ∈ dumpLines hdr vt labels lin quad, ∀ c ∈ x, c ≠ '\n' := by
+    intro x hx
+    simp only [dumpLines, List.mem_append, List.mem_map] at hx
+    rcases hx with hx | ⟨t, _, rfl⟩
+    · split at hx
+      · simp at hx; subst hx; exact headerLine_noNl vt
+      · simp at hx
+    · exact printLine_noNl t
+  rw [dumps]
+  cases h : dumpLines hdr vt labels lin quad with
+  | nil => exact absurd h hne
+  | cons l ls => exact split_join l ls (h ▸ hno)
+
+/-- **`coo.loads(coo.dumps(bqm, vartype_header), vartype)` at text level**, for every BQM labelled with non-negative integers
+    (any labels: gaps, any order), both vartypes, with the header or with the `vartype` argument (or both): loading raises
+    nothing, gives the vartype of the model, and the mutator calls it makes accumulate to — for every variable the written
+    linear bias rounded to six decimals if it was non-zero and nothing otherwise; for every pair the written interaction
+    rounded to six decimals.  (Variables whose biases are all absent from the text are not in the format; the offset is
+    not in the format.  `float()` is taken as the exact decimal value: see the model header.) -/
+theorem coo_text_roundtrip (hdr : Bool) (vt : VT) (arg : Option VT) (labels : List Nat) (lin : Nat → Rat) (quad : Nat → Nat → Option Rat)
+    (hnd : labels.Nodup) (hsym : ∀ a b, quad a b = quad b a)
+    (hvt : vt = .spin ∨ vt = .binary) (harg : arg = some vt ∨ (arg = none ∧ hdr = true)) :
+    ∃ calls, loads arg (dumps hdr vt labels lin quad) = some (vt, calls) ∧
+      (∀ u, linOf calls u = if u ∈ labels ∧ lin u ≠ 0 then mkRat (round6 (lin u)) 1000000 else 0) ∧
+      (∀ u v, u ≠ v → quadOf calls u v =
+        if u ∈ labels ∧ v ∈ labels then ((quad u v).map fun b => mkRat (round6 b) 1000000).getD 0 else 0) := by
+  refine ⟨_, loads_dumps hdr vt arg labels lin quad hvt harg, ?_, ?_⟩
+  all_goals
+    have hp := List.mergeSort_perm labels (fun a b => decide (a ≤ b))
+    have hnd' := hp.nodup_iff.mpr hnd
+    have hcalls : (triples labels lin quad).map loaded
+        = (cooRows (fun u => round6 (lin u)) (fun u => decide (lin u ≠ 0)) (fun u v => (quad u v).map round6)
+            (labels.mergeSort fun a b => decide (a ≤ b))).map sc := by
+      rw [← rows_r6, List.map_map]; rfl
+    rw [hcalls]
+  · intro u
+    rw [linOf_sc, coo_linear _ _ _ _ hnd' u]
+    simp only [hp.mem_iff, decide_eq_true_eq]
+    split <;> simp [scale]
+  · intro u v huv
+    rw [quadOf_sc, coo_quadratic _ _ _ (fun a b => by simp [hsym a b]) _ hnd' u v huv]
+    simp only [hp.mem_iff]
+    split
+    · cases quad u v <;> simp [scale]
+    · simp [scale]
+
+/-- a text without header and without `vartype` argument is refused; a `vartype` argument that disagrees with the written
+    header is refused -/
+theorem coo_text_vartype_refusals (vt vt' : VT) (labels : List Nat) (lin : Nat → Rat) (quad : Nat → Nat → Option Rat) (hne : vt' ≠ vt) :
+    loadLines none (dumpLines false vt labels lin quad) = none ∧
+    loadLines (some vt') (dumpLines true vt labels lin quad) = none := by
+  constructor
+  · simp [loadLines, dumpLines, fold_printLines, finishVartype]
+  · have hn : ∀ l : List (List Char), List.foldl stepLine none l = none := by
+      intro l; induction l with
+      | nil => rfl
+      | cons a l ih => simpa [stepLine] using ih
+    simp [loadLines, dumpLines, stepLine, header_match, vtOfName_vtName, Ne.symm hne, hn]
+
+example : printF (-9/2) = ['-', '4', '.', '5', '0', '0', '0', '0', '0'] := by decide +kernel
+example : round6 (1/128) = 7812 ∧ round6 (3/128) = 23438 ∧ round6 (-1/10000000) = 0 := by decide +kernel   -- ties go to even
+example : printF (-1/10000000) = ['-', '0', '.', '0', '0', '0', '0', '0', '0'] := by decide +kernel
+example : matchTriple ['1', ' ', '2', ' ', '1', 'e', '5'] = none := by decide +kernel        -- exponent forms are not lines
+example : matchTriple [' ', '1', '\t', '2', ' ', ' ', '+', '.', '5', ' '] = some (['1'], ['2'], ['+', '.', '5']) := by decide +kernel
+example : parseDec ['+', '.', '5'] = some (1/2) := by decide +kernel
+example : parseDec ['-'] = none := by decide +kernel
+
+end CooTextLevel
 
 /-! ## witnesses: the code before the repairs -/
 
